@@ -67,10 +67,12 @@ class DelayedExecutor(concurrent.futures.ThreadPoolExecutor):
     """A slow disk on the virtual clock: every submitted function takes effect `delay` virtual seconds after it was
     submitted - whether or not the coroutine that waits for it is still interested (a worker thread cannot be recalled)."""
 
-    def __init__(self, loop: "VLoop", delay: float) -> None:
+    def __init__(self, loop: "VLoop", delay) -> None:
         super().__init__(max_workers=1)
         self.loop = loop
-        self.delay = delay
+        # a number, or a list of per-call delays used cyclically: worker threads do not finish in submission order (one
+        # job's thread is slow to start, another's disk access hangs) - a job may take effect after jobs submitted later
+        self.delays = list(delay) if isinstance(delay, (list, tuple)) else [delay]
         self.calls = 0
 
     def submit(self, fn, /, *args, **kwargs):
@@ -88,12 +90,12 @@ class DelayedExecutor(concurrent.futures.ThreadPoolExecutor):
                     future.set_result(result)
 
         future.set_running_or_notify_cancel()  # like a thread that has started: cancel() no longer stops it
-        self.loop.call_later(self.delay, run)
+        self.loop.call_later(self.delays[(self.calls - 1) % len(self.delays)], run)
         return future
 
 
 class VLoop(asyncio.SelectorEventLoop):
-    def __init__(self, *, inline_executor: bool = True, grace: float = 0.0, executor_delay: float = 0.0) -> None:
+    def __init__(self, *, inline_executor: bool = True, grace: float = 0.0, executor_delay=0.0) -> None:
         ref: list = [None]
         self.grace = grace
         self.executor_delay = executor_delay
@@ -104,7 +106,7 @@ class VLoop(asyncio.SelectorEventLoop):
         ref[0] = self
         self.records: list[dict] = []
         self.set_exception_handler(self._record)
-        if executor_delay > 0:
+        if executor_delay:
             self.inline = DelayedExecutor(self, executor_delay)
             self.set_default_executor(self.inline)
         elif inline_executor:
@@ -119,7 +121,7 @@ class VLoop(asyncio.SelectorEventLoop):
                              "task": repr(context.get("task") or context.get("future"))[:200]})
 
 
-def run_virtual(coro_factory, *, inline_executor: bool = True, grace: float = 0.0, executor_delay: float = 0.0):
+def run_virtual(coro_factory, *, inline_executor: bool = True, grace: float = 0.0, executor_delay=0.0):
     """Run coro_factory() on a fresh VLoop; returns (result, loop).  LogicalDeadlock propagates as result.
     grace > 0: the loop serves real loopback sockets (see VSelector.select)."""
     loop = VLoop(inline_executor=inline_executor, grace=grace, executor_delay=executor_delay)
